@@ -190,7 +190,9 @@ def expected_outputs(prog, argv_info, charset):
                 if t.lower().endswith(".wav"):
                     t = t[:-4]
             try:
-                tb = t.encode(charset)
+                # independent of pdpy11's own 'bk' codec: for letters, digits and ASCII punctuation the BK
+                # charset coincides with KOI8-R
+                tb = t.encode("koi8-r" if charset == "bk" else charset)
             except UnicodeEncodeError:
                 tb = None
             tape = tb if tb is None else tb[:16].ljust(16, b" ")
